@@ -118,6 +118,18 @@ REGISTRY["C16"] = {
     "assumptions": _AS_COMMON,
 }
 
+REGISTRY["C09"] = {
+    "modules": ["contracts.mapper"],
+    "category": "other",
+    "technique": "contract-based deductive verification of the real code: load/store maps built with the mapper API are instantiated by amoco itself (S >> M) on SYMBOLIC pointer values, data and initial memory; postcondition = byte-level sequential execution (if-then-else chain over the stores), discharged by z3 on every path",
+    "level_text": "Bounded symbolic verification: programs of <= 4 loads/stores through two pointer registers (offsets, sizes 1..8 bytes, both endiannesses, aliasing assumed or not, memory tracing on/off) are enumerated (8 fixed aliasing patterns + seeded programs); for each, ALL pointer values of a 17x17 window (every equal / overlapping / disjoint placement), all stored values and all initial memory bytes are symbolic. Each loaded value and the final memory must equal the byte-level execution; with no-aliasing on, for assignments where the pointers are >= 16 bytes apart.",
+    "level_note": "trusted: z3, symx engine/shims, byte-level oracle in contracts/mapper.py. Route checked: amoco's own instantiation (rcompose, mem.eval replay of mods, zone arithmetic); the un-instantiated map with its mods list is not interpreted independently. Bounded by program length and by the pointer window.",
+    "design_ref": "DESIGN.md section 4 (C09)",
+    "explanation": "bounded symbolic verification of aliasing: all pointer placements symbolic, programs of <= 4 accesses",
+    "trusted_base": _TB + ["byte-level sequential memory oracle (contracts/mapper.py: ByteMem)"],
+    "assumptions": _AS_COMMON,
+}
+
 NOT_APPLICABLE = {
     "C07": "the oracle is the behaviour of two external programs (binutils, LLVM): no contract on amoco's functions can state it without hand-writing a model of those decoders; a vendored table comparison is example-based testing, a different family",
 }
